@@ -1,4 +1,4 @@
-import CssVerif.Lemmas.SheetEdit
+import CssVerif.Lemmas.SheetReparse
 /-!
 # C09 — a stylesheet stays structurally valid under any sequence of DOM edits
 
@@ -216,6 +216,51 @@ theorem reachable_valid_partial (st : St) (ops : List Op) (hv : Valid st) (hc : 
   | nil => exact hv
   | cons op ops ih =>
     exact ih (step st op).1 (step_valid_partial st op hv hc.1 hc.2.1) hc.2.2
+
+/-! ## T9.3 — serialising and reparsing a valid sheet loses no rule -/
+
+/-- **T9.3** for every structurally valid sheet whose rules each survive a round trip on their own (`roundTrips`:
+selectors use declared namespaces, an @page rule holds each margin once, @namespace rules have a URI) and whose
+@namespace rules are all effective (`NsClean`, the state `_cleanNamespaces` leaves): parsing the serialisation —
+the dispatcher with its ordering levels 0..3 and the `S` bump, one `insertRule` per statement, the nested parsers of
+@media and @page, the final `_cleanNamespaces`, all in log-only mode — gives back the same tree of rule kinds, at
+every depth. No rule is lost to an ordering or nesting error. (Serialisation itself is the identity on rule
+descriptions here; that a single rule's text parses back to that rule is C03 and is exercised by the oracle.) -/
+theorem reparse_keeps_all (st : St) (hv : Valid st) (hns : NsClean st.rules)
+    (hrt : ∀ r ∈ st.rules, r.roundTrips (nsUris st.rules) = true) :
+    Rule.shapes (reparse st).rules = Rule.shapes st.rules :=
+  (reparse_rules st hv.top hv.kids hns hrt).1
+
+/-- … in particular the list of kinds of the sheet's own list -/
+theorem reparse_keeps_kinds (st : St) (hv : Valid st) (hns : NsClean st.rules)
+    (hrt : ∀ r ∈ st.rules, r.roundTrips (nsUris st.rules) = true) :
+    kindsOf (reparse st).rules = kindsOf st.rules :=
+  (reparse_rules st hv.top hv.kids hns hrt).2
+
+/-- the hypothesis `Valid` is needed: in the state produced by the finding C09-add-variables-scan (@variables in
+front of @import) every rule round-trips on its own and the namespaces are clean, but the reparse drops the @import -/
+theorem reparse_loses_after_order_break :
+    let st := (step (run St.empty [.setText [commentS, importS]]) (.add varsS false)).1
+    (st.rules.all fun r => r.roundTrips (nsUris st.rules)) = true ∧
+      kindsOf st.rules = [.vars, .comment, .imp] ∧ kindsOf (reparse st).rules = [.vars, .comment] := by
+  decide
+
+/-- … and so is the nested-kinds clause: the @variables rule that C09-media-accepts-variables lets into an @media
+list is gone after a reparse -/
+theorem reparse_loses_after_nested_break :
+    let st := (step (run St.empty [.add (mediaS [styleS]) false]) (.nInsert [0] varsS none false)).1
+    st.rules.map (fun r => kindsOf r.kids) = [[.style, .vars]] ∧
+      (reparse st).rules.map (fun r => kindsOf r.kids) = [[.style]] := by
+  decide
+
+/-- non-vacuity of T9.3: a sheet with every kind, nested lists, a used namespace — all hypotheses hold -/
+example :
+    let st := run St.empty [.setText [charsetS 0x61, commentS, importS, nsS 0x70 0x75, nsS 0x71 0x76, varsS,
+      styleUsing 0x75, mediaS [styleUsing 0x76, pageS [marginS 1, marginS 2], mediaS [commentS]], pageS [marginS 1],
+      fontfaceS, unknownS]]
+    Valid st ∧ st.rules.length = 11 ∧ (st.rules.all fun r => r.roundTrips (nsUris st.rules)) = true ∧
+      ((nsPairs st.rules).map (·.1)).Nodup ∧ ((nsPairs st.rules).map (·.2)).Nodup := by
+  simp only [← validB_iff]; decide +kernel
 
 /-- non-vacuity of T9.1 / T9.2: a history of fourteen operations of all families (object and string arguments,
 refused and accepted ones, nested lists, text replace on the empty sheet, namespaces, encoding) lies outside every
